@@ -149,6 +149,13 @@ def handleC14 (cmd : String) (args : List Sexp) : Option Sexp :=
       let sup : Prob.SupportCap ← (match sup with | "real" => some .real | "other" => some .other | "not_impl" => some .notImpl | _ => none)
       let mn : Prob.MeanCap ← (match mn with | "absent" => some .absent | "not_impl" => some .notImpl | "ok" => some .ok | _ => none)
       pure (pickSexp (Prob.distSample it ⟨ds == "true", reg, sup, mo == "true", me == "true", mn, rs == "true"⟩))
+  | "c14.lp_shape", [.list sb, .list heads] => do
+      -- shapes of the aggregated log-prob (distribution / module) and of the per-head entries
+      let sb ← nats? sb
+      let heads ← heads.mapM (fun h => match h with | .list l => nats? l | _ => none)
+      let sh (o : Option Prob.Shape) : Sexp := match o with | some s => ofNats s | none => .atom "none"
+      pure (.list [sh (Prob.compositeLogProbShape sb heads), sh (Prob.moduleLogProbShape sb heads),
+                   .list ((Prob.perHeadShapes sb heads).map ofNats)])
   | _, _ => none
 
 end TdVerif.Drive
